@@ -352,6 +352,35 @@ func variants() []variant {
 	lock("lock-time-blocktime-minus-1", func(c *ctx, b *reftx.Block) (uint32, uint32) { return b.Time - 1, 0 })
 	lock("lock-time-blocktime", func(c *ctx, b *reftx.Block) (uint32, uint32) { return b.Time, 0 })
 	lock("lock-500000000", func(c *ctx, b *reftx.Block) (uint32, uint32) { return 500000000, 0 })
+	// the coinbase is a transaction of the block too: its lock time is judged like any other
+	// (bad is left false everywhere: the reference decides, as for the lock variants above)
+	cblock := func(name string, bad bool, f func(c *ctx, b *reftx.Block) (lock uint32, seq uint32)) {
+		for pos, suffix := range []string{"", "-then-two-final-txs"} {
+			t := tag()
+			pos := pos
+			need := func(c *ctx) bool { return true }
+			if pos == 1 {
+				need = coins
+			}
+			add(name+suffix, bad, need, func(c *ctx) *reftx.Block {
+				s := c.spec(t)
+				if pos == 1 {
+					s.Txs = []*reftx.Tx{sp([]OP{c.p.Named["M2"]}, []reftx.Out{o1(5e8)}), sp([]OP{c.p.Named["M3"]}, []reftx.Out{o1(5e8)})}
+				}
+				b := minichain.Build(s)
+				b.Txs[0].LockTime, b.Txs[0].In[0].Sequence = f(c, b)
+				minichain.Seal(b)
+				return b
+			})
+		}
+	}
+	cblock("coinbase-lock-height-minus-1", false, func(c *ctx, b *reftx.Block) (uint32, uint32) { return c.height - 1, 0 })
+	cblock("coinbase-lock-height", false, func(c *ctx, b *reftx.Block) (uint32, uint32) { return c.height, 0 })
+	cblock("coinbase-lock-height-final-sequence", false, func(c *ctx, b *reftx.Block) (uint32, uint32) { return c.height, 0xffffffff })
+	cblock("coinbase-lock-height-sequence-fffffffe", false, func(c *ctx, b *reftx.Block) (uint32, uint32) { return c.height, 0xfffffffe })
+	cblock("coinbase-lock-time-mtp-minus-1", false, func(c *ctx, b *reftx.Block) (uint32, uint32) { return c.mtp - 1, 0 })
+	cblock("coinbase-lock-time-mtp", false, func(c *ctx, b *reftx.Block) (uint32, uint32) { return c.mtp, 0 })
+	cblock("coinbase-lock-500000000", false, func(c *ctx, b *reftx.Block) (uint32, uint32) { return 500000000, 0 })
 	// ---- merkle ----
 	add("merkle-root-wrong", true, nil, func(c *ctx) *reftx.Block {
 		b := minichain.Build(c.spec(tag()))
@@ -479,6 +508,45 @@ func variants() []variant {
 		minichain.Seal(b)
 		return b
 	})
+	// a commitment output may be longer than 38 bytes (BIP141: "at least 38 bytes"); the
+	// bytes after the hash are not part of the commitment
+	for _, extra := range []int{1, 2, 40} {
+		extra := extra
+		long := func(sc []byte) []byte { return append(append([]byte{}, sc...), make([]byte, extra)...) }
+		add(fmt.Sprintf("commitment-%d-bytes-right", 38+extra), false, wit, func(c *ctx) *reftx.Block {
+			b := wblock(c, tag(), true)
+			o := &b.Txs[0].Out[len(b.Txs[0].Out)-1]
+			o.Script = long(o.Script)
+			minichain.Seal(b)
+			return b
+		})
+		add(fmt.Sprintf("commitment-%d-bytes-wrong", 38+extra), true, wit, func(c *ctx) *reftx.Block {
+			b := wblock(c, tag(), true)
+			o := &b.Txs[0].Out[len(b.Txs[0].Out)-1]
+			o.Script = long(o.Script)
+			o.Script[10] ^= 1
+			minichain.Seal(b)
+			return b
+		})
+		add(fmt.Sprintf("two-commitments-last-%d-bytes-wrong", 38+extra), true, wit, func(c *ctx) *reftx.Block {
+			b := wblock(c, tag(), true)
+			cb := b.Txs[0]
+			good := cb.Out[len(cb.Out)-1]
+			badc := reftx.Out{Script: long(good.Script)}
+			badc.Script[20] ^= 0xff
+			cb.Out = append(cb.Out[:len(cb.Out)-1], good, badc)
+			minichain.Seal(b)
+			return b
+		})
+		add(fmt.Sprintf("commitment-%d-bytes-nonce-missing", 38+extra), true, func(c *ctx) bool { return c.flags.Witness }, func(c *ctx) *reftx.Block {
+			b := wblock(c, tag(), false)
+			b.Txs[0].In[0].Witness = nil
+			o := &b.Txs[0].Out[len(b.Txs[0].Out)-1]
+			o.Script = long(o.Script)
+			minichain.Seal(b)
+			return b
+		})
+	}
 	add("coinbase-witness-before-activation", true, func(c *ctx) bool { return !c.flags.Witness }, func(c *ctx) *reftx.Block {
 		b := minichain.Build(c.spec(tag()))
 		b.Txs[0].In[0].Witness = [][]byte{make([]byte, 32)}
